@@ -550,6 +550,17 @@ def run_history(cut, pos, kw, ops):
 # cases
 
 
+def _same_obs(a, b):
+    """Structural equality with identity on the leaves (symbolic values have no __eq__)."""
+    if a is b:
+        return True
+    if isinstance(a, (list, tuple)):
+        return (isinstance(b, (list, tuple)) and len(a) == len(b) and all(_same_obs(x, y) for x, y in zip(a, b)))
+    if isinstance(a, str):
+        return isinstance(b, str) and a == b
+    return False
+
+
 SHORT = {"RFrozen": "F", "RAttrError": "A", "RTypeError": "T", "ROk": "K"}
 
 
@@ -576,10 +587,13 @@ def target_case(h, ti, shape, alpha, runs, with_init):
         ops = [alpha[i] for i in idxs]
         hist = run_history(cut, pos, kw, ops)
         prev = s0
+        prev_ob = None
         steps = []
         js = []
         for i, o, (r, ob) in zip(idxs, ops, hist):
-            cur = enc_state(ob, cut)
+            # same objects in the same places as after the previous step: same encoding (saves the encoder)
+            cur = prev if (prev_ob is not None and _same_obs(ob, prev_ob)) else enc_state(ob, cut)
+            prev_ob = ob
             if cur == prev and r in SHORT:
                 steps.append("(%d,%s)" % (i, SHORT[r]))
             else:
@@ -656,6 +670,10 @@ def draw_attrs_desc(rng, uidc, h_cuts, base_idx, opts):
     uid = "%d" % uidc[0]
     base = h_cuts[base_idx] if base_idx is not None else None
     spec = g.gen_class_spec(rng, uid, base=base, hooks_ok=True)
+    if spec["pre"] == "named":
+        # initgen probes the signature with its own builder (no extra bases / alias / user methods): keep to
+        # the catch-all hook; which arguments a pre-init hook receives is C02's subject
+        spec["pre"] = "star"
     api = opts["api"]
     spec["api"] = "attrs" if api == "attrs" else "define"
     if spec["api"] == "attrs":
@@ -982,7 +1000,7 @@ def generate(tier, seed):
     _dist.clear()
     cases = []
     all_plans = plans(rng)
-    rounds = 1 if tier == "quick" else 3
+    rounds = 1
     deep_budget = 0 if tier == "quick" else 12
     for rnd in range(rounds):
         order = list(range(len(all_plans)))
